@@ -27,7 +27,11 @@ def main():
                 print(name, 'ERROR', res['error']); continue
             fired = sorted(q for q, r in res.items() if r['rc'] == 1)
             own = [b for b in str(breaks).replace(',', ' ').split() if b.startswith('C')]
-            status = 'KILLED' if any(o in fired for o in own) else ('sibling' if fired else 'EVADES')
+            if os.path.basename(p).startswith('f'):
+                # behaviour-preserving patches the red team found false alarms on: must now be silent
+                status = 'silent-ok' if not fired else 'FALSE-ALARM'
+            else:
+                status = 'KILLED' if any(o in fired for o in own) else ('sibling' if fired else 'EVADES')
             print('%-34s breaks=%-12s %-8s fired=%s' % (name, breaks, status, ','.join(fired)))
             out[name] = {'breaks': breaks, 'fired': fired}
     json.dump(out, open(os.path.join(VERIF, 'adversarial', 'RESULTS.json'), 'w'), indent=1)
